@@ -214,13 +214,15 @@ static unsigned long long n_pending = 0, n_cases = 0, n_wellformed = 0, n_malfor
 static tc_t T;
 
 /* delivery: 0 = message + NL through SCPI_Input, 1 = the same behind a unit with an undefined header ("ZZ;"),
- * 2 = without terminator, then a zero-length flush call, 3 = NUL-terminated line handed to SCPI_Parse */
+ * 2 = without terminator, then a zero-length flush call, 3 = NUL-terminated line handed to SCPI_Parse,
+ * 4 = "ZZ9 1234567890.5" NL + the unit without terminator in ONE input call, then a zero-length flush */
 static void run_case(const char * body, int bl, int delivery) {
     char msg[300];
     int ml = 0, i, pre = 0;
     runit_t u;
     scpi_bool_t res;
     if (delivery == 1) { memcpy(msg, "ZZ;", 3); ml = 3; pre = 3; }
+    if (delivery == 4) { memcpy(msg, "ZZ9 1234567890.5\n", 17); ml = 17; pre = 17; }
     memcpy(msg + ml, body, (size_t) bl); ml += bl;
     if (delivery <= 1) msg[ml++] = '\n';
     u = ref_unit(msg + pre, ml - pre);
@@ -234,6 +236,7 @@ static void run_case(const char * body, int bl, int delivery) {
         free(line);
     } else {
         res = SCPI_Input(&T.ctx, msg, ml);
+        if (delivery == 4) { tr_reset(); tc_errs[0] = -113; tc_nerr = 1; tr_printf("E-113;"); res = SCPI_Input(&T.ctx, NULL, 0); }
         if (delivery == 2) {
             if (TRN) { mc_viol("c05/executed-before-terminator", "message [%s] without terminator: trace [%s] before the flush", mc_e(msg, (size_t) ml), mc_es(TR)); return; }
             res = SCPI_Input(&T.ctx, NULL, 0);
@@ -344,7 +347,7 @@ static void run_case(const char * body, int bl, int delivery) {
                     h_ret_err ? "ERR" : "OK", h_stop, mc_e(msg, (size_t) ml), mc_es(TR), mc_es(EXP));
             return;
         }
-        if ((res ? 1 : 0) != ((m_err || pre) ? 0 : 1)) { mc_viol("c05/input-result", "message [%s]: SCPI_Input returned %d, errors raised: %d", mc_e(msg, (size_t) ml), (int) res, tc_nerr); return; }
+        if ((res ? 1 : 0) != ((m_err || (pre && delivery != 4)) ? 0 : 1)) { mc_viol("c05/input-result", "message [%s]: SCPI_Input returned %d, errors raised: %d", mc_e(msg, (size_t) ml), (int) res, tc_nerr); return; }
         if (!m_err) n_errfree++;
         for (i = 0; i < tc_nerr; i++) { int c = tc_errs[i]; by_err[c == -109 ? 0 : c == -108 ? 1 : c == -104 ? 2 : c == -138 ? 3 : c == -131 ? 4 : c == -224 ? 5 : c == -200 ? 6 : 7]++; }
         mc_outcome(mc_hash(TR, TRN, 6));
@@ -370,7 +373,7 @@ static void run_lists(int maxitems) {
                 if (style == 3) msg[o++] = ' ';
                 mc_case_tag = "list";
                 mc_case_i[0] = nsig; mc_case_i[1] = nsig > 0 ? sig[0].reader * 2 + sig[0].mandatory : -1; mc_case_i[2] = nsig > 1 ? sig[1].reader * 2 + sig[1].mandatory : -1; mc_case_i[3] = h_ret_err; mc_case_i[4] = h_stop;
-                for (d = 0; d < (n <= 2 ? 4 : 1); d++) if (MC_CASE()) run_case(msg, o, d);
+                for (d = 0; d < (n <= 2 ? 5 : 1); d++) if (MC_CASE()) run_case(msg, o, d);
             }
             for (i = n - 1; i >= 0; i--) { if (++idx[i] < NFRAG) break; idx[i] = 0; }
             if (i < 0) break;
